@@ -76,7 +76,32 @@ def explore(ctx):
         c.pop('crit_single', None)
         lax, strict = rand_pair(rng, c)
         via = None
-        if rng.random() < 0.3 and strict[1][1] == lax[1][1] and strict[0] == 0 and lax[0] == 0:
+        cascade = it % 10 == 0
+        if cascade:
+            # a small group next to a big leaf: leaf A, and a branch B(C, D) that is A's sibling; the whole group is
+            # smaller than min_npix.  Removing A dissolves B into the common parent, which later loses C and D as well
+            # and must then go itself (in the same prune, or in a second one)
+            ne = rng.randint(6, 10)
+            big = sorted(rng.sample(range(40, 80), ne), reverse=True)
+            a_ = [rng.randint(8, 20) for _ in range(rng.randint(1, 2))]
+            c_ = [rng.randint(21, 30) for _ in range(rng.randint(1, 2))]
+            d_ = [rng.randint(8, 20) for _ in range(rng.randint(1, 2))]
+            vals = big + [1] + a_ + [rng.randint(2, 4)] + c_ + [rng.randint(5, 7)] + d_
+            if rng.random() < 0.5:
+                vals = vals[::-1]
+            # distinct values (the order of equal pixels is not the point here)
+            seen = set()
+            vals = [v if not (v in seen or seen.add(v)) else None for v in vals]
+            if any(v is None for v in vals):
+                cascade = False
+            else:
+                group = len(a_) + len(c_) + len(d_) + 2
+                c = {'shape': [len(vals)], 'vals': vals, 'dtype': 'float64', 'scale': 0, 'minv': None, 'delta': 0, 'npix': [0, 1],
+                     'adj': ['grid', [False]], 'crit': []}
+                lax, strict = (0, [0, 1]), (0, [rng.randint(group, min(ne, group + 2)) if ne >= group else group, 1])
+                via = (0, [2, 1]) if rng.random() < 0.5 else None
+                ctx.count('cascade_cases')
+        if not cascade and rng.random() < 0.3 and strict[1][1] == lax[1][1] and strict[0] == 0 and lax[0] == 0:
             # min_npix only (where the implementation does satisfy the property): the model has no intermediate
             # prune, so these cases are decided by the oracle alone
             den = strict[1][1]
